@@ -25,6 +25,7 @@ use num_bigint::BigUint;
 use std::fmt::Write as _;
 use vcore::{Draw, json};
 use vdesign::*;
+use crate::ram_tpl::*;
 use veryl_synthesizer::{Library, RamConfig, SynthResult, SynthesizerError};
 
 #[derive(Clone, Copy, Debug, PartialEq, Eq)]
@@ -88,6 +89,8 @@ pub struct SynthCase {
     pub text: String,
     /// vdesign IR (family `design`): lets the reference evaluator give a third opinion
     pub design: Option<Design>,
+    /// structured form of a `ram` case (for minimisation)
+    pub ram_spec: Option<(RamSpec, Streams)>,
     pub stim: Stimulus,
     pub clock: ClockKind,
     pub reset: ResetKind,
@@ -203,9 +206,41 @@ pub fn synth_gen_cfg(d: &mut Draw) -> (GenCfg, Vec<String>) {
     (cfg, cls)
 }
 
-pub fn gen_design_case(d: &mut Draw) -> SynthCase {
+pub fn gen_design_case(d: &mut Draw, known_per_mille: u32) -> SynthCase {
     let (cfg, mut classes) = synth_gen_cfg(d);
-    let g = gen_design(d, &cfg);
+    // designs that contain the trigger shape of a known finding are drawn
+    // again (and counted), except at a low rate that keeps the finding visible
+    let mut g = gen_design(d, &cfg);
+    let mut tries = 0;
+    loop {
+        let hits = crate::synth_findings::design_hits(&g.design);
+        if hits.is_empty() {
+            break;
+        }
+        if d.chance(known_per_mille, 1000) {
+            for h in &hits {
+                classes.push(format!("known:{h}"));
+            }
+            break;
+        }
+        for h in &hits {
+            classes.push(format!("excluded:{h}"));
+        }
+        tries += 1;
+        if tries >= 6 {
+            // give up on the full dialect: no signed values, no flip-flops
+            let mut c2 = cfg.clone();
+            c2.signed = false;
+            c2.sign_casts = false;
+            c2.always_ff = false;
+            g = gen_design(d, &c2);
+            if !crate::synth_findings::design_hits(&g.design).is_empty() {
+                classes.push("excluded:gave-up".into());
+            }
+            break;
+        }
+        g = gen_design(d, &cfg);
+    }
     let cycles = 6 + d.below(10) as usize;
     let stim = gen_stimulus(d, &g.design, cycles);
     let (clock, reset) = gen_types(d);
@@ -215,7 +250,7 @@ pub fn gen_design_case(d: &mut Draw) -> SynthCase {
     classes.extend(g.classes.iter().cloned());
     for (k, n) in &g.excluded {
         if *n > 0 {
-            classes.push(format!("excluded:{k}"));
+            classes.push(format!("excluded(sim):{k}"));
         }
     }
     if g.design.modules.len() > 1 && g.design.top().items.iter().any(|i| matches!(i, Item::Inst { .. })) {
@@ -224,10 +259,13 @@ pub fn gen_design_case(d: &mut Draw) -> SynthCase {
     if g.design.top().has_ff() {
         classes.push("design:sequential".into());
     }
+    classes.sort();
+    classes.dedup();
     SynthCase {
         family: "design",
         text,
         design: Some(g.design),
+        ram_spec: None,
         stim,
         clock,
         reset,
@@ -239,466 +277,72 @@ pub fn gen_design_case(d: &mut Draw) -> SynthCase {
 }
 
 // ---------------------------------------------------------------------------
-// memory-shaped modules
+// memory-shaped modules (see `ram_tpl`)
 // ---------------------------------------------------------------------------
 
-#[derive(Clone, Debug)]
-struct PortGen {
-    name: String,
-    width: usize,
-    /// values are drawn below this bound (addresses, enables) instead of corner-biased
-    small: Option<u64>,
-    /// probability (percent) of an all-ones draw (write enables)
-    ones_pct: u32,
-}
-
-struct RamCore {
-    body: String,
-    inputs: Vec<PortGen>,
-    outputs: Vec<(String, usize)>,
-    depth: usize,
-    width: usize,
-    reads: usize,
-    writes: usize,
-    classes: Vec<String>,
-}
-
-fn clog2(n: usize) -> usize {
-    if n <= 1 { 1 } else { (usize::BITS - (n - 1).leading_zeros()) as usize }
-}
-
-/// Body (declarations + items, no header) of a module holding one memory
-/// array `mem` plus the ports it needs.
-fn gen_ram_core(d: &mut Draw) -> RamCore {
-    let depth = *d.pick(&[4usize, 8, 2, 16, 3, 5, 32, 6]);
-    let width = match d.weighted(&[5, 3, 1, 1]) {
-        0 => 1 + d.below(8) as usize,
-        1 => 9 + d.below(16) as usize,
-        2 => 33 + d.below(8) as usize,
-        _ => 64 + d.below(6) as usize,
-    };
-    let aw = clog2(depth);
-    let pow2 = depth.is_power_of_two();
-    let mut c = RamCore {
-        body: String::new(),
-        inputs: vec![],
-        outputs: vec![],
-        depth,
-        width,
-        reads: 0,
-        writes: 0,
-        classes: vec![],
-    };
-    c.classes.push(format!("ram:depth:{}", if pow2 { "pow2" } else { "non_pow2" }));
-    c.classes.push(format!("ram:width:{}", if width <= 8 { "1_8" } else if width <= 32 { "9_32" } else if width <= 64 { "33_64" } else { "gt64" }));
-    let mut decls = String::new();
-    let mut ff = String::new(); // statements of the reset-less always_ff
-    let mut items = String::new();
-    writeln!(decls, "    var mem: logic<{width}> [{depth}];").unwrap();
-
-    // a free-running counter (with reset): an address source, and flip-flops next to the RAM
-    let use_cnt = d.chance(1, 3);
-    if use_cnt {
-        writeln!(decls, "    var cnt: logic<{aw}>;").unwrap();
-        if pow2 {
-            writeln!(items, "    always_ff {{\n        if_reset {{\n            cnt = 0;\n        }} else {{\n            cnt = cnt + 1;\n        }}\n    }}").unwrap();
-        } else {
-            writeln!(
-                items,
-                "    always_ff {{\n        if_reset {{\n            cnt = 0;\n        }} else if cnt == {} {{\n            cnt = 0;\n        }} else {{\n            cnt = cnt + 1;\n        }}\n    }}",
-                depth - 1
-            )
-            .unwrap();
-        }
-        c.classes.push("ram:counter_address".into());
-    }
-
-    // ---- reads first (a write may use a read)
-    let n_reads = 1 + d.weighted(&[4, 3, 1]);
-    let mut read_addr_exprs: Vec<String> = vec![];
-    let mut k = 0;
-    while k < n_reads {
-        let ra = format!("ra{k}");
-        c.inputs.push(PortGen {
-            name: ra.clone(),
-            width: aw,
-            small: Some(depth as u64),
-            ones_pct: 0,
-        });
-        let addr = match d.weighted(&[6, 1, 1, 1]) {
-            0 => ra.clone(),
-            1 if pow2 => {
-                c.classes.push("ram:read_addr_plus1".into());
-                format!("{ra} + {aw}'d1")
-            }
-            2 if pow2 && k > 0 => {
-                c.classes.push("ram:read_addr_xor".into());
-                format!("{ra} ^ ra{}", k - 1)
-            }
-            3 if use_cnt => {
-                c.classes.push("ram:read_addr_counter".into());
-                "cnt".to_string()
-            }
-            _ => ra.clone(),
-        };
-        let q = format!("q{k}");
-        let style = d.weighted(&[6, 3, 2, 2, 2]);
-        match style {
-            1 => {
-                // registered read
-                c.outputs.push((q.clone(), width));
-                writeln!(items, "    always_ff {{\n        if_reset {{\n            {q} = 0;\n        }} else {{\n            {q} = mem[{addr}];\n        }}\n    }}").unwrap();
-                c.classes.push("ram:read_registered".into());
-            }
-            2 if width >= 2 => {
-                let lo = d.below(width as u32 - 1) as usize;
-                let hi = lo + d.below((width - lo) as u32) as usize;
-                c.outputs.push((q.clone(), hi - lo + 1));
-                writeln!(items, "    assign {q} = mem[{addr}][{hi}:{lo}];").unwrap();
-                c.classes.push("ram:read_subword".into());
-            }
-            3 if k + 1 < n_reads => {
-                // two reads through one index variable that is re-assigned in between
-                k += 1;
-                let ra2 = format!("ra{k}");
-                c.inputs.push(PortGen {
-                    name: ra2.clone(),
-                    width: aw,
-                    small: Some(depth as u64),
-                    ones_pct: 0,
-                });
-                let q2 = format!("q{k}");
-                c.outputs.push((q.clone(), width));
-                c.outputs.push((q2.clone(), width));
-                writeln!(decls, "    var t{k}: logic<{aw}>;").unwrap();
-                writeln!(items, "    always_comb {{\n        t{k} = {addr};\n        {q} = mem[t{k}];\n        t{k} = {ra2};\n        {q2} = mem[t{k}];\n    }}").unwrap();
-                c.classes.push("ram:read_reassigned_index".into());
-                read_addr_exprs.push(format!("t{k}"));
-            }
-            4 => {
-                // the same address read twice (one port) and combined
-                c.outputs.push((q.clone(), width));
-                writeln!(items, "    assign {q} = mem[{addr}] ^ {{mem[{addr}][0] repeat {width}}};").unwrap();
-                c.classes.push("ram:read_same_address_twice".into());
-            }
-            _ => {
-                c.outputs.push((q.clone(), width));
-                writeln!(items, "    assign {q} = mem[{addr}];").unwrap();
-                c.classes.push("ram:read_assign".into());
-            }
-        }
-        read_addr_exprs.push(addr);
-        k += 1;
-    }
-    // distinct read addresses by text (what the port limit counts)
-    read_addr_exprs.sort();
-    read_addr_exprs.dedup();
-    c.reads = read_addr_exprs.len();
-
-    // ---- writes
-    let n_groups = 1 + d.weighted(&[5, 2, 1]);
-    let mut we_bits = 0usize;
-    let mut new_we = |we_bits: &mut usize| -> String {
-        let s = format!("we[{}]", *we_bits);
-        *we_bits += 1;
-        s
-    };
-    for gi in 0..n_groups {
-        let wa = format!("wa{gi}");
-        let wd = format!("wd{gi}");
-        c.inputs.push(PortGen {
-            name: wa.clone(),
-            width: aw,
-            small: Some(depth as u64),
-            ones_pct: 0,
-        });
-        c.inputs.push(PortGen {
-            name: wd.clone(),
-            width,
-            small: None,
-            ones_pct: 0,
-        });
-        let addr = match d.weighted(&[6, 1, 1]) {
-            1 if pow2 => {
-                c.classes.push("ram:write_addr_plus1".into());
-                format!("{wa} + {aw}'d1")
-            }
-            2 if use_cnt => {
-                c.classes.push("ram:write_addr_counter".into());
-                "cnt".to_string()
-            }
-            _ => wa.clone(),
-        };
-        let data = match d.weighted(&[5, 1, 1]) {
-            1 => format!("~{wd}"),
-            2 => {
-                // a genuine read feeding the write (not the retention read of a masked write)
-                c.classes.push("ram:write_data_from_read".into());
-                if !read_addr_exprs.contains(&"ra0".to_string()) {
-                    read_addr_exprs.push("ra0".into());
-                    c.reads = read_addr_exprs.len();
-                }
-                format!("mem[ra0] + {wd}")
-            }
-            _ => wd.clone(),
-        };
-        // a non-power-of-two array: keep the write in range half of the time
-        let guard = !pow2 && addr == wa && d.bool();
-        let (g0, g1) = if guard { (format!("        if {wa} <: {aw}'d{depth} {{\n"), "        }\n".to_string()) } else { (String::new(), String::new()) };
-        if guard {
-            c.classes.push("ram:write_guarded".into());
-        }
-        let mut s = String::new();
-        match d.weighted(&[5, 1, 3, 3, 2, 2]) {
-            1 => {
-                writeln!(s, "        mem[{addr}] = {data};").unwrap();
-                c.writes += 1;
-                c.classes.push("ram:write_unconditional".into());
-            }
-            2 => {
-                let we = new_we(&mut we_bits);
-                let wm = format!("wm{gi}");
-                c.inputs.push(PortGen {
-                    name: wm.clone(),
-                    width,
-                    small: None,
-                    ones_pct: 0,
-                });
-                let keep = if d.bool() { format!("mem[{addr}] & ~{wm}") } else { format!("~{wm} & mem[{addr}]") };
-                let put = if d.bool() { format!("{data} & {wm}") } else { format!("{wm} & {data}") };
-                let data_p = if data.contains('+') { format!("({data})") } else { data.clone() };
-                let put = put.replace(&data, &data_p);
-                let rhs = if d.bool() { format!("({keep}) | ({put})") } else { format!("({put}) | ({keep})") };
-                writeln!(s, "        if {we} {{\n            mem[{addr}] = {rhs};\n        }}").unwrap();
-                c.writes += 1;
-                c.classes.push("ram:write_masked_rmw".into());
-            }
-            3 if width >= 2 => {
-                // constant sub-word lanes, each with its own enable
-                let cut = 1 + d.below(width as u32 - 1) as usize;
-                let overlap = d.chance(1, 4) && cut + 1 < width;
-                let hi0 = if overlap { cut } else { cut - 1 };
-                let we0 = new_we(&mut we_bits);
-                let we1 = new_we(&mut we_bits);
-                writeln!(s, "        if {we0} {{\n            mem[{addr}][{hi0}:0] = {wd}[{hi0}:0];\n        }}").unwrap();
-                writeln!(s, "        if {we1} {{\n            mem[{addr}][{}:{cut}] = ~{wd}[{}:{cut}];\n        }}", width - 1, width - 1).unwrap();
-                c.writes += 1;
-                c.classes.push(if overlap { "ram:write_lanes_overlapping".into() } else { "ram:write_lanes".to_string() });
-            }
-            4 => {
-                let we = new_we(&mut we_bits);
-                let wb = format!("wb{gi}");
-                c.inputs.push(PortGen {
-                    name: wb.clone(),
-                    width: aw,
-                    small: Some(depth as u64),
-                    ones_pct: 0,
-                });
-                let g = if pow2 { String::new() } else { format!(" && {wb} <: {aw}'d{depth}") };
-                writeln!(s, "        if {we} {{\n            mem[{addr}] = {data};\n        }} else if {wd}[0]{g} {{\n            mem[{wb}] = ~{wd};\n        }}").unwrap();
-                c.writes += 2;
-                c.classes.push("ram:write_if_else".into());
-            }
-            5 => {
-                let op = format!("op{gi}");
-                c.inputs.push(PortGen {
-                    name: op.clone(),
-                    width: 2,
-                    small: Some(4),
-                    ones_pct: 0,
-                });
-                writeln!(s, "        case {op} {{\n            2'd0: {{\n                mem[{addr}] = {data};\n            }}\n            2'd2: {{\n                mem[{addr}] = ~{wd};\n            }}\n            default: {{\n            }}\n        }}").unwrap();
-                c.writes += 2;
-                c.classes.push("ram:write_case_arm".into());
-            }
-            _ => {
-                let we = new_we(&mut we_bits);
-                writeln!(s, "        if {we} {{\n            mem[{addr}] = {data};\n        }}").unwrap();
-                c.writes += 1;
-                c.classes.push("ram:write_plain".into());
-            }
-        }
-        ff.push_str(&g0);
-        ff.push_str(&s);
-        ff.push_str(&g1);
-    }
-    if we_bits > 0 {
-        c.inputs.push(PortGen {
-            name: "we".into(),
-            width: we_bits,
-            small: None,
-            ones_pct: 60,
-        });
-    }
-    if c.writes > 1 {
-        c.classes.push("ram:multi_write".into());
-    }
-    if c.reads > 1 {
-        c.classes.push("ram:multi_read".into());
-    }
-    c.body.push_str(&decls);
-    writeln!(c.body, "    always_ff (clk) {{\n{ff}    }}").unwrap();
-    c.body.push_str(&items);
-    c
-}
-
-fn module_text(name: &str, clock: ClockKind, reset: ResetKind, ins: &[(String, usize)], outs: &[(String, usize)], body: &str) -> String {
-    let mut s = String::new();
-    writeln!(s, "module {name} (").unwrap();
-    writeln!(s, "    clk: input {},", clock.type_name()).unwrap();
-    writeln!(s, "    rst: input {},", reset.type_name()).unwrap();
-    let ty = |w: usize| if w == 1 { "logic".to_string() } else { format!("logic<{w}>") };
-    for (n, w) in ins {
-        // `we[0]` needs a vector even when one bit wide
-        let t = if n == "we" { format!("logic<{w}>") } else { ty(*w) };
-        writeln!(s, "    {n}: input {t},").unwrap();
-    }
-    for (n, w) in outs {
-        writeln!(s, "    {n}: output {},", ty(*w)).unwrap();
-    }
-    s.push_str(") {\n");
-    s.push_str(body);
-    s.push_str("}\n");
-    s
-}
-
-pub fn gen_ram_case(d: &mut Draw) -> SynthCase {
-    let (clock, reset) = gen_types(d);
-    let core = gen_ram_core(d);
-    let mut classes = core.classes.clone();
-    let ins: Vec<(String, usize)> = core.inputs.iter().map(|p| (p.name.clone(), p.width)).collect();
-    let mut arrays = vec![(core.depth, core.width, core.reads, core.writes)];
-    let hier = d.weighted(&[3, 2, 2]);
-    let mut text = String::new();
-    let mut top_inputs: Vec<PortGen> = core.inputs.clone();
-    let mut top_outputs: Vec<(String, usize)> = vec![];
-    match hier {
-        0 => {
-            // flat: some logic after the read data so that cells sit behind the RAM
-            let mut body = core.body.clone();
-            top_outputs = core.outputs.clone();
-            if d.bool() {
-                let (q, w) = core.outputs[0].clone();
-                writeln!(body, "    assign s0 = {q} + {w}'d1;").unwrap();
-                top_outputs.push(("s0".into(), w));
-                classes.push("ram:logic_after_read".into());
-            }
-            text.push_str(&module_text("Top", clock, reset, &ins, &top_outputs, &body));
-            classes.push("ram:flat".into());
-        }
-        _ => {
-            text.push_str(&module_text("RamCore", clock, reset, &ins, &core.outputs, &core.body));
-            let n_inst = if hier == 1 { 1 } else { 2 };
-            let mut body = String::new();
-            // optionally an array of the top module's own next to the children's
-            let own = d.chance(1, 3);
-            if own {
-                let ow = 1 + d.below(6) as usize;
-                let od = *d.pick(&[4usize, 8]);
-                let oa = clog2(od);
-                writeln!(body, "    var own: logic<{ow}> [{od}];").unwrap();
-                writeln!(body, "    always_ff (clk) {{\n        if owe {{\n            own[owa] = owd;\n        }}\n    }}").unwrap();
-                writeln!(body, "    assign oq = own[ora];").unwrap();
-                for (n, w, small) in [("owe", 1, Some(2u64)), ("owa", oa, Some(od as u64)), ("owd", ow, None), ("ora", oa, Some(od as u64))] {
-                    top_inputs.push(PortGen {
-                        name: n.into(),
-                        width: w,
-                        small,
-                        ones_pct: if n == "owe" { 60 } else { 0 },
-                    });
-                }
-                top_outputs.push(("oq".into(), ow));
-                arrays.push((od, ow, 1, 1));
-                classes.push("ram:own_and_child".into());
-            }
-            for i in 0..n_inst {
-                writeln!(body, "    inst u{i}: RamCore (").unwrap();
-                writeln!(body, "        clk: clk,\n        rst: rst,").unwrap();
-                for p in &core.inputs {
-                    // the second instance sees complemented data / shifted enables so that the two memories differ
-                    let e = if i == 0 {
-                        p.name.clone()
-                    } else if p.name.starts_with("wd") {
-                        format!("~{}", p.name)
-                    } else {
-                        p.name.clone()
-                    };
-                    writeln!(body, "        {}: {e},", p.name).unwrap();
-                }
-                for (q, w) in &core.outputs {
-                    writeln!(body, "        {q}: u{i}_{q},").unwrap();
-                    top_outputs.push((format!("u{i}_{q}"), *w));
-                }
-                body.push_str("    );\n");
-            }
-            if n_inst == 2 {
-                arrays.push(arrays[0]);
-            }
-            text.push_str(&module_text("Top", clock, reset, &top_inputs.iter().map(|p| (p.name.clone(), p.width)).collect::<Vec<_>>(), &top_outputs, &body));
-            classes.push(format!("ram:child_x{n_inst}"));
-        }
-    }
-    // ---- stimulus
-    let cycles = 16 + d.below(24) as usize;
-    let mut stim = Stimulus {
-        clock: Some("clk".into()),
-        reset: Some("rst".into()),
-        inputs: top_inputs
-            .iter()
-            .map(|p| PortSpec {
-                name: p.name.clone(),
-                width: p.width,
-            })
-            .collect(),
-        outputs: top_outputs
-            .iter()
-            .map(|(n, w)| PortSpec {
-                name: n.clone(),
-                width: *w,
-            })
-            .collect(),
-        steps: vec![],
-    };
-    // few distinct addresses, so that reads hit what was written
-    let hot: u64 = 1 + d.below(4) as u64;
-    let draw_val = |d: &mut Draw, p: &PortGen| -> BigUint {
-        if p.ones_pct > 0 && d.below(100) < p.ones_pct {
-            return (BigUint::from(1u32) << p.width) - 1u32;
-        }
-        match p.small {
-            Some(n) => {
-                let lim = if p.width > 2 && d.chance(3, 4) { n.min(hot + 1) } else { n };
-                BigUint::from(d.below(lim.max(1) as u32))
-            }
-            None => gen_value(d, p.width as u32),
-        }
-    };
-    let n_reset = 1 + d.below(2) as usize;
-    for i in 0..n_reset + cycles {
-        let values = top_inputs.iter().map(|p| draw_val(d, p)).collect();
-        stim.steps.push(StimStep {
-            reset: i < n_reset || d.chance(1, 40),
-            values,
-        });
-    }
-    let library = *d.pick(&LIBRARIES);
-    let ram = gen_ram_config(d, &arrays);
+/// Build the case of a memory specification (also used while minimising).
+pub fn ram_case_of(spec: &RamSpec, streams: &Streams, clock: ClockKind, reset: ResetKind, library: Library, ram: RamConfig) -> SynthCase {
+    let r = spec.render(clock.type_name(), reset.type_name());
+    let stim = stimulus_of(&r, streams);
+    let mut classes: Vec<String> = spec.features().into_iter().map(|f| format!("ram:{f}")).collect();
+    classes.push(format!("ram:width:{}", if spec.width <= 8 { "1_8" } else if spec.width <= 32 { "9_32" } else if spec.width <= 64 { "33_64" } else { "gt64" }));
     SynthCase {
         family: "ram",
-        text,
+        text: r.text,
         design: None,
+        ram_spec: Some((spec.clone(), streams.clone())),
         stim,
         clock,
         reset,
         library,
         ram,
         classes,
-        arrays,
+        arrays: r.arrays,
     }
 }
 
+pub fn gen_ram_case(d: &mut Draw, known_per_mille: u32) -> SynthCase {
+    let (clock, reset) = gen_types(d);
+    let mut spec = gen_ram_spec(d);
+    let mut excluded = vec![];
+    // known findings: keep their trigger shapes at a low rate only
+    if spec.has_reassigned_index() && !d.chance(known_per_mille, 1000) {
+        for r in spec.reads.iter_mut() {
+            if r.style == ReadStyle::ReassignedIndex {
+                r.style = ReadStyle::Assign;
+            }
+        }
+        excluded.push("excluded:ram-read-port-shared-by-address-text");
+    }
+    if spec.ff_read_after_write() && !d.chance(known_per_mille, 1000) {
+        let n = spec.writes.len();
+        for w in spec.writes.iter_mut().skip(1) {
+            if matches!(w.style, WriteStyle::MaskedRmw(_)) {
+                w.style = WriteStyle::Plain;
+            }
+            if w.data == DataSrc::FromRead {
+                w.data = DataSrc::Port;
+            }
+        }
+        let _ = n;
+        excluded.push("excluded:ff-read-after-write-in-block");
+    }
+    let r = spec.render(clock.type_name(), reset.type_name());
+    let streams = gen_streams(d, &r.inputs);
+    let library = *d.pick(&LIBRARIES);
+    let ram = gen_ram_config(d, &r.arrays);
+    let mut c = ram_case_of(&spec, &streams, clock, reset, library, ram);
+    c.classes.extend(excluded.into_iter().map(|s| s.to_string()));
+    c
+}
+
 pub fn gen_case(d: &mut Draw) -> SynthCase {
-    if d.chance(2, 5) { gen_ram_case(d) } else { gen_design_case(d) }
+    gen_case_with(d, 15)
+}
+
+/// `known_per_mille`: rate at which trigger shapes of known findings are kept
+pub fn gen_case_with(d: &mut Draw, known_per_mille: u32) -> SynthCase {
+    if d.chance(2, 5) { gen_ram_case(d, known_per_mille) } else { gen_design_case(d, known_per_mille) }
 }
 
 // ---------------------------------------------------------------------------
